@@ -1,0 +1,24 @@
+//go:build verif
+
+package logic
+
+import "github.com/q191201771/lal/pkg/gb28181"
+
+// Hooks for the C07 verification harness (/verif). Built only with -tags verif.
+
+// VerifHasSdp reports whether the group has received the sdp of its rtsp input
+// (OnSdp runs on a goroutine started by rtsp.BaseInSession.SetObserver; the
+// harness waits for it before feeding rtp).
+func (group *Group) VerifHasSdp() bool {
+	group.mutex.Lock()
+	defer group.mutex.Unlock()
+	return group.sdpCtx != nil
+}
+
+// VerifPsPubSession returns the gb28181 session StartRtpPub created, so that
+// the harness can feed datagrams synchronously (see gb28181.VerifFeedPacket).
+func (group *Group) VerifPsPubSession() *gb28181.PubSession {
+	group.mutex.Lock()
+	defer group.mutex.Unlock()
+	return group.psPubSession
+}
